@@ -16,16 +16,18 @@ func init() { Registry["C12"] = C12 }
 // c12Probe describes how the effective value of one inheritable setting is observed at the
 // top-level position of a method.
 type c12Probe struct {
-	key    string
-	values []string // the non-absent spellings; for booleans: bare yes no
-	isBool bool
-	dflt   string // effective value when absent everywhere ("no"/"yes" for booleans, "" for valued)
-	types  string // type declarations, %[1]s = suffix
-	method string // method declaration, %[1]s = suffix, %[2]s = method name
-	mlines []string
-	clines []string // extra converter lines
-	funcs  string   // custom functions (once per file)
-	kind   string   // success | text
+	// settingFirst: the probed setting is written before the probe's other method lines (settings apply in source order)
+	settingFirst bool
+	key          string
+	values       []string // the non-absent spellings; for booleans: bare yes no
+	isBool       bool
+	dflt         string // effective value when absent everywhere ("no"/"yes" for booleans, "" for valued)
+	types        string // type declarations, %[1]s = suffix
+	method       string // method declaration, %[1]s = suffix, %[2]s = method name
+	mlines       []string
+	clines       []string // extra converter lines
+	funcs        string   // custom functions (once per file)
+	kind         string   // success | text
 	// expectation from the effective value
 	succeeds func(eff string) bool     // kind success
 	marker   func(eff string) []string // kind text: substrings that must be present in the method body
@@ -100,6 +102,17 @@ func c12Probes(caseRoot string) []c12Probe {
 	// valued settings
 	ps = append(ps, c12Probe{key: "arg:context:regex", values: []string{"^ctx", "^zzz"}, dflt: "",
 		types: "type In%[1]s struct{ V int }\ntype Out%[1]s struct{ V int }\ntype CtxT%[1]s struct{}\n", method: "%[2]s(source In%[1]s, ctxA CtxT%[1]s) Out%[1]s", kind: "success",
+		succeeds: func(eff string) bool { return eff == "^ctx" },
+		opposite: func(eff string) string {
+			if eff == "^ctx" {
+				return "^zzz"
+			}
+			return "^ctx"
+		}})
+	// the same setting observed through the context parameter of a map function (the method-level value has to reach it)
+	ps = append(ps, c12Probe{key: "arg:context:regex", values: []string{"^ctx", "^zzz"}, dflt: "", settingFirst: true,
+		types:  "type In%[1]s struct{ V int }\ntype Out%[1]s struct{ V int; X string }\ntype CtxT%[1]s struct{}\nfunc Fn%[1]s(v int, ctxB CtxT%[1]s) string { return \"\" }\n",
+		method: "%[2]s(source In%[1]s, ctxA CtxT%[1]s) Out%[1]s", kind: "success", mlines: []string{"map V X | Fn%[1]s"},
 		succeeds: func(eff string) bool { return eff == "^ctx" },
 		opposite: func(eff string) string {
 			if eff == "^ctx" {
@@ -278,13 +291,16 @@ func C12(e *core.Env) int {
 		}
 		mdecl := func(suffix, name string, value string) string {
 			var m strings.Builder
+			if l := settingLine(p.key, value); l != "" && p.settingFirst {
+				m.WriteString("\t// goverter:" + l + "\n")
+			}
 			for _, l := range p.mlines {
 				if strings.Contains(l, "%") {
 					l = fmt.Sprintf(l, suffix)
 				}
 				m.WriteString("\t// goverter:" + l + "\n")
 			}
-			if l := settingLine(p.key, value); l != "" {
+			if l := settingLine(p.key, value); l != "" && !p.settingFirst {
 				m.WriteString("\t// goverter:" + l + "\n")
 			}
 			m.WriteString("\t" + fmt.Sprintf(p.method, suffix, name) + "\n")
